@@ -44,6 +44,12 @@ CHECKS.update({
  "C12": dict(engine="symtorch", category="model_checking", design_ref="DESIGN.md §4 C12",
    text="Composition decided symbolically for all widths: forward factor c_out from the real U.linear/linear_readout/conv1d x lr factor from the real library Adam/AdamW on a weight of symbolic shape (tag/depth/constraint read off the real module) x fan_in*k = eta/sqrt(depth), with the weight-gradient factor proved positive; the Adam first-step contract and the module=function composition are validated concretely each run on real modules.",
    note=S_NOTE + " Adam's update rule is torch code: used as documented contract (eps=0: -lr sign(grad)), validated per run.", technique="symbolic execution; z3 NRA over fan-in/fan-out/kernel/depth/eta; concrete contract validation; replay"),
+ "C08": dict(engine="symtorch", category="model_checking", design_ref="DESIGN.md §4 C08",
+   text="The real forward() of 14 module classes runs on a proxy self (parameters -> opaque symbolic tensors of symbolic shape keeping their tags; numeric options -> symbolic values; the rest falls through to the really constructed module) and is unified - value, shape and every parameter/input gradient - with an independently written functional form using the configured options, per discrete option combination (constructor run concretely, sentinel options must be stored verbatim). MLP/MHSA unfolded through their real forwards; TransformerLayer with uninterpreted sub-blocks. Depth containers on parameters with a symbolic tag selector. Initial state (recorded N(0,1) initialiser, zero biases, unit gains), tags, depth and rejected options concretely (labelled).",
+   note=S_NOTE + " Constructors and the initial-state/tag clauses are decided on concrete objects (finite, exhaustive over discrete options); RNG statistics reduced to 'the initialiser is N(0,1)'.", technique="symbolic execution of module forward on a proxy self; z3 NRA; concrete constructor enumeration; replay against functional form and torch.nn twin"),
+ "C09": dict(engine="symtorch", category="model_checking", design_ref="DESIGN.md §4 C09",
+   text="One inductive step per operation of the property's alphabet (deepcopy/pickle/torch.save of parameter or module, .to, .half, load_state_dict, requires_grad_, library transform) from an arbitrary valid state: the real hook functions and the real copy/pickle protocol run on a parameter whose tag is a solver-selected symbol (path forking in has_parameter_data / lr_scale_func) and whose depth is symbolic; obligations: invariant (nn.Parameter with hooks bound to itself) re-established, tag/depth/values/dtype/trainability as expected, same lr scale (z3), accepted by the optimizers. All real histories up to length 3 (quick) / 4 (thorough) enumerated as a cross-check of the invariant's strength.",
+   note="Trusted: CPython copy/pickle and torch serialisation protocols (executed for real, validated with sentinel hooks each run). The solver's share is small (tag selector feasibility, lr-scale equalities); the argument is inductive: if the invariant is re-established by every operation, histories of any length preserve the tags. History enumeration is labelled enumeration.", technique="inductive step of the real hook code under symbolic tag/depth with path forking (z3) + bounded enumeration of real histories"),
 })
 
 NA = {
